@@ -21,6 +21,19 @@ Local Opaque BabyJub.modinv BabyJub.modsqrt BabyJub.Mul BabyJub.Affine BabyJub.P
   Mimc7.MIMC7Hash HadesOpt.perm_opt Z.mul Z.add Z.sub Z.modulo Z.shiftr Z.shiftl Z.land Z.lor
   Z.ltb Z.gtb Z.geb Z.eqb.
 
+(* copying a [32]byte value into another [32]byte is the identity: a redundant defensive
+   copy of the message buffer may be present or absent in the source *)
+Lemma copy_into_LE : forall v, copy_into 32 (Utils.BigIntLEBytes v) = Utils.BigIntLEBytes v.
+Proof.
+  intros v.
+  assert (Hl : length (Utils.BigIntLEBytes v) = 32%nat).
+  { unfold Utils.BigIntLEBytes, copy_into. rewrite app_length, repeat_length.
+    pose proof (firstn_le_length 32 (Utils.SwapEndianness (min_be_bytes v))) as Hf.
+    rewrite firstn_length in *. lia. }
+  generalize dependent (Utils.BigIntLEBytes v). intros w Hl.
+  unfold copy_into. rewrite firstn_all2 by lia. rewrite Hl. cbn [Nat.sub repeat]. apply app_nil_r.
+Qed.
+
 Section Hashes.
   Variable blake512 : bytes -> bytes.
   Variable poseidon5 : list Z -> res Z.
@@ -33,7 +46,7 @@ Section Hashes.
     intros. unfold babyjub_PrivateKey_SignPoseidon, Eddsa.SignPoseidon, Eddsa.sign_with.
     rewrite gen_utils_BigIntLEBytes_fn, gen_utils_SetBigIntFromLEBytes_fn,
       gen_babyjub_PrivateKey_Public_fn, gen_babyjub_PrivateKey_Scalar_fn.
-    same.
+    cbv zeta. rewrite ?copy_into_LE. same.
   Qed.
 
   Lemma gen_babyjub_PrivateKey_SignMimc7_eq : forall k msg,
@@ -43,7 +56,7 @@ Section Hashes.
     intros. unfold babyjub_PrivateKey_SignMimc7, Eddsa.SignMimc7, Eddsa.sign_with.
     rewrite gen_utils_BigIntLEBytes_fn, gen_utils_SetBigIntFromLEBytes_fn,
       gen_babyjub_PrivateKey_Public_fn, gen_babyjub_PrivateKey_Scalar_fn.
-    same.
+    cbv zeta. rewrite ?copy_into_LE. same.
   Qed.
 End Hashes.
 
